@@ -60,7 +60,7 @@ pub fn run(ctx: &Ctx) -> Report {
                         ops.push(WOp::IoWrite(bytes.iter().rev().cloned().take(3).collect()));
                         ops.push(WOp::Unary(9));
                     }
-                    let be = [WBackend::Rec(None), WBackend::VecOwned, WBackend::AdVec, WBackend::Slice(64), WBackend::AdShort(3)][ci % 5];
+                    let be = [WBackend::Rec(None), WBackend::VecOwned, WBackend::AdVec, WBackend::Slice(64), WBackend::AdShort(3), WBackend::VecDirty][ci % 6];
                     let fin = if matches!(be, WBackend::Rec(_)) { [Fin::Flush2, Fin::Drop, Fin::IntoInner][ci % 3] } else { Fin::IntoInner };
                     let case = c01::Case { cfg: WCfg { e, w, be }, ops, fin };
                     c01::check_case(&case, rep);
@@ -143,7 +143,7 @@ pub fn run(ctx: &Ctx) -> Report {
                         ops.push(ROp::Unary);
                         ops.push(ROp::Pos);
                     }
-                    let be = RBackend::ALL[ci % 8];
+                    let be = RBackend::ALL[ci % RBackend::ALL.len()];
                     let img = imgs[if ci % 5 < 3 { 0 } else { 1 + ci % 2 }].clone();
                     readhist::check("C12", &RCase { cfg: RCfg { e, kind, be }, image: img.clone(), ops }, rep, false);
                     if len > 0 {
